@@ -21,6 +21,7 @@ EXPLANATION = (
     "cooling schedule and then the acceptance, each once per pass. K6 on GeometricCooling::execute (with the mapping "
     "driver inlined): the temperature is read once through its lens, multiplied by alpha and assigned once through "
     "the SAME lens; init of the acceptance inserts Temperature(t_0). (INIT) init() evaluated with every field of self a distinct symbol inserts exactly the state types of a reviewed table, under the component's own instantiation, each built from exactly the documented field or empty / zero. NOT decided: acceptance frequencies over many draws.")
+EXPLANATION += " " + '(R1/R3 revised) the temperature is a cell of the typed store (any accessor), the scenario carries a tracked best better than the current solution (the comparison is with the CURRENT one), and the cooling lens is a lens onto one cell: after one execution it holds T * alpha.'
 ASSUMPTIONS = ["Rng::gen::<f64>() returns a value in [0, 1)"]
 
 ACC = "mahf::components::replacement::sa::ExponentialAnnealingAcceptance"
